@@ -74,6 +74,7 @@ def log(a): return Fn("log", lift(a))
 def sin(a): return Fn("sin", lift(a))
 def cos(a): return Fn("cos", lift(a))
 def sqrt(a): return Fn("sqrt", lift(a))
+def lgamma(a): return Fn("lgamma", lift(a))
 
 
 ZERO, ONE = Const(0), Const(1)
@@ -222,6 +223,8 @@ def d(e, x):
             return _neg(_mul(sin(e.a), da))
         if e.f == "sqrt":
             return Div(da, _mul(Const(2), e))
+        if e.f == "lgamma":
+            raise NotImplementedError("digamma not modelled: lgamma argument must not depend on %s" % x)
     raise TypeError(e)
 
 
